@@ -68,8 +68,8 @@ type Check struct {
 	Functions     []string // entry points (informational; the measured list is recorded too)
 	// PanicFilter restricts which panics count (nil = all) when PanicViolates.
 	PanicFilter func(f vm.Finding) bool
-	Validate    int // number of path models per case to validate VM vs native (0 = default)
-	Race        bool // run native replays under the race detector
+	Validate    int      // number of path models per case to validate VM vs native (0 = default)
+	Race        bool     // run native replays under the race detector
 	RecordStubs []string // functions the VM replaces by recording stubs
 	SelfTest    bool     // validate the string-level models against the native functions first
 	Z3TimeoutMs int      // per-query limit of the primary solver before the fallback is tried (0 = 8000)
@@ -79,10 +79,11 @@ type Check struct {
 var Registry = map[string]*Check{}
 
 var (
-	statsMuSelf    sync.Mutex
-	selfBad        []string
-	modelValidated int
-	hazardsBenign  int
+	statsMuSelf       sync.Mutex
+	selfBad           []string
+	modelValidated    int
+	hazardsBenign     int
+	completionsBenign int
 )
 
 func Register(c *Check) { Registry[c.ID] = c }
@@ -601,7 +602,7 @@ func Run(id, tier string, seed int, workers int) int {
 			if f.Kind == "panic" {
 				expect = "panic"
 			}
-			if f.Kind == "hazard" {
+			if f.Kind == "hazard" || f.Kind == "completion" {
 				expect = "any-native-failure"
 			}
 			rf := replayFile{Property: id, Harness: co.c.Fn, Package: co.c.Pkg, Args: co.c.Args, Values: f.Model, Expect: expect, Msg: f.Msg, Case: co.c.ID}
@@ -689,6 +690,7 @@ func Run(id, tier string, seed int, workers int) int {
 	// ---- classify findings
 	violations := 0
 	hazardsBenign = 0
+	completionsBenign = 0
 	knownHit := map[string]bool{}
 	var samplesViol []interface{}
 	for _, p := range pend {
@@ -718,6 +720,15 @@ func Run(id, tier string, seed int, workers int) int {
 			}
 			if p.f.Kind == "hazard" {
 				hazardsBenign++
+				os.Remove(p.path)
+				continue
+			}
+			if p.f.Kind == "completion" {
+				completionsBenign++
+				if os.Getenv("VERIF_KEEP_COMPLETIONS") != "" {
+					fmt.Println("COMPLETION benign:", p.path, why)
+					continue
+				}
 				os.Remove(p.path)
 				continue
 			}
@@ -969,6 +980,7 @@ func writeEvidence(chk *Check, tier string, seed int, t0 time.Time, results []ca
 	cov["known_findings_hit"] = knownHit
 	cov["model_validation_comparisons"] = modelValidated
 	cov["alias_hazards_replayed_without_native_failure"] = hazardsBenign
+	cov["inconclusive_paths_completed_natively_without_failure"] = completionsBenign
 	cov["exhaustive"] = false
 	cov["explanation"] = "Bounded symbolic execution of the real code (go/ssa of /repo's working tree) with an SMT solver deciding every branch and assertion; 'states' = symbolic paths completed, 'transitions' = branch decisions resolved by the solver."
 	if st != nil {
